@@ -117,8 +117,36 @@ static int c05_s5e(toks_t *t)
   return 1;
 }
 
+
+/* s5n w h seed kind dct smooth h0 v0 h1 v1 h2 v2 : compression through the libjpeg API with sampling factors the TurboJPEG levels cannot
+   express (e.g. 2x2,1x2,1x2: h2v1 downsampling of two rows per row group; 2x2,2x1,2x1; 4x2,1x1,1x1; 3x2,...), so that the SIMD
+   downsamplers, colour converters and DCTs are driven with every row-group height; result = digest of the JPEG */
+static int c05_s5n(toks_t *t)
+{
+  int w = (int)tl(t, 1), h = (int)tl(t, 2), kind = (int)tl(t, 4), dct = (int)tl(t, 5), smooth = (int)tl(t, 6), i, x, y, c; unsigned long long seed = (unsigned long long)tll(t, 3);
+  struct jpeg_compress_struct cc; my_err_t e; unsigned char *jp = NULL, *row; unsigned long jn = 0;
+  cc.err = my_err_init(&e);
+  jpeg_create_compress(&cc);
+  if (setjmp(e.jb)) { printf("R err %d\n", e.code); jpeg_destroy_compress(&cc); free(jp); return 1; }
+  jpeg_mem_dest(&cc, &jp, &jn);
+  cc.image_width = (JDIMENSION)w; cc.image_height = (JDIMENSION)h; cc.input_components = 3; cc.in_color_space = JCS_RGB;
+  jpeg_set_defaults(&cc); jpeg_set_quality(&cc, 90, TRUE);
+  cc.dct_method = dct ? JDCT_IFAST : JDCT_ISLOW; cc.smoothing_factor = smooth;
+  for (i = 0; i < 3; i++) { cc.comp_info[i].h_samp_factor = (int)tl(t, 7 + 2 * i); cc.comp_info[i].v_samp_factor = (int)tl(t, 8 + 2 * i); }
+  jpeg_start_compress(&cc, TRUE);
+  row = (unsigned char *)malloc((size_t)w * 3 + 16);
+  for (y = 0; y < h; y++) { JSAMPROW rp = row; for (x = 0; x < w; x++) for (c = 0; c < 3; c++) row[x * 3 + c] = (unsigned char)c05_pixel(seed, kind, x, y, c); jpeg_write_scanlines(&cc, &rp, 1); }
+  free(row);
+  jpeg_finish_compress(&cc);
+  jpeg_destroy_compress(&cc);
+  printf("R %lu %llu\n", jn, c05_fnv(jp, jn, 14695981039346656037ULL));
+  free(jp);
+  return 1;
+}
+
 static int dispatch_c05(toks_t *t)
 {
+  if (!strcmp(t->tok[0], "s5n") && t->n >= 13) return c05_s5n(t);
   if (!strcmp(t->tok[0], "s5e") && t->n >= 9) return c05_s5e(t);
   if (!strcmp(t->tok[0], "s5c") && t->n >= 11) return c05_s5c(t);
   if (!strcmp(t->tok[0], "s5d") && t->n >= 11) return c05_s5d(t);
